@@ -186,7 +186,9 @@ def lex(
         A :class:`TokenIterator` object
     """
     if isinstance(lines, str):
-        lines = lines.splitlines()
+        # only LF, CRLF, and CR end a line (as when reading a text file);
+        # str.splitlines() also splits on VT, FF, FS, GS, RS, NEL, LS, PS
+        lines = re.split(r'\r\n|\r|\n', lines)
     if pattern is not None:
         if isinstance(pattern, str):
             regex = re.compile(pattern, flags=re.VERBOSE)
